@@ -108,7 +108,7 @@ class C03(Prop):
                 ("get_page_degree", True): wind + woutd + selfw,
             }
             for (name, weighted), want in figs.items():
-                g = case.call(name, getattr(t, name), p, weighted=weighted)
+                g = case.call(name, getattr(t, name), ob.arg(p), weighted=weighted)
                 if g != want:
                     ctx.fail("degree", "%s(%r, weighted=%r) = %r, expected %r" % (name, p, weighted, g, want), case)
             if full:
